@@ -234,16 +234,36 @@ NOT_APPLICABLE = []
 EXTRA = {
     'C17': 'The members / iteration / length clause incl. alias names, reversed() and `in` is stated directly '
            '(C17_members_iteration_length); adapter objects created in every order and form are judged by their own strictness '
-           'flag; mask helpers are exercised under caller edits of returned lists.',
+           'flag; mask helpers are exercised under caller edits of returned lists and after lenient conversions of the same '
+           'integers by the enumeration and by its mask class in eight orders.',
     'C19': 'Every call form of the unit flag (model Angle.UnitArg, theorem C19_call_forms_agree) and input type, element orders '
-           'and layouts; results of earlier calls are kept and re-read.',
+           'and layouts; results of earlier calls are kept and re-read; array lengths around powers of two and common block '
+           'sizes; every function x unit x argument kind as the first conversion of a fresh interpreter.',
     'C06': 'The encoder is driven through call histories on one and several encoder objects (source given / omitted / refused, '
            'every ordered pair of payload classes; theorems C06_encoder_call_fields, C06_encoder_labels_independent_of_history); '
            'altered messages go through every way of writing MessageHeader.unpack(); the C++ routines are also called during '
            'static initialisation in both link orders.',
     'C01': 'The oracle also runs every pack/unpack call form (library / caller buffers at non-zero offsets with guard bytes, '
            'header+payload in one call), bit-set sweeps of integer fields and re-use of one object for several encodings '
-           '(incl. after refused parses).',
+           '(incl. after refused parses); every bytes/text member is filled with structured-looking contents (sync bytes, framed '
+           'messages, NULs, non-UTF-8) crossed with defined and unrecognised raw values of every enumeration field.',
+    'C02': 'Every encoding is also decoded told the C++ struct\'s MESSAGE_VERSION (three unpack call forms, the stream decoder, '
+           'MixedLogReader sequentially and by index entry).',
+    'C04': 'Data is handed over in nine forms (bytes, fresh / re-used / wiped bytearray, memoryviews, a recv_into-style view) with the '
+           'caller\'s objects compared after every call; add_callback histories while the decoder is in use (typed and catch-all, '
+           'between calls and from inside a callback).',
+    'C08': 'Messages of every registered class in every P1-time configuration; the time column is also judged against the wire '
+           'bytes by a hand-written per-type table.',
+    'C09': 'Every library writer of .p1i files (reader, fast indexer, FileIndexBuilder, extraction in four output forms, locate_log, '
+           'load+save) is run on captures with junk between messages; the written index is compared with a fresh one and every '
+           'read through it with the index-ignored read (fractional seconds across [0,1)).',
+    'C10': 'Generated logs draw their base P1 time from magnitudes 0 .. 2^24 .. GPS-like .. 2^31 .. 2^32-2 with whole-second bounds '
+           'around message times.',
+    'C11': 'Every filter operation also in its replacing form (clear_existing=True = clear-then-filter); histories applying one '
+           'type set to different sub-indexes of pattern logs that share first entry, last entry and size.',
+    'C12': 'Histories "across-types read of T / reads of strict subsets of T with other arguments / the first read again".',
+    'C15': 'Boundary sizes: union / common / per-type epoch counts at 2^k-1 .. 2^k+2 (k = 7, 8; thorough also 15, 16).',
+    'C18': 'Inputs with messages of every registered class in every P1-time configuration, each extracted with an index request.',
 }
 for _k, _v in EXTRA.items():
     if _v not in CHECKS[_k]['text']:
